@@ -385,7 +385,198 @@ class Linked(SubCheck):
         return "%s:%s" % (self.name, v["msg"])
 
 
-SUBCHECKS = {c.name: c for c in [Decide(), Linked()]}
+STALE = {"HP": 9, "PS": 99, "PC": 77}
+ROLES = {  # role -> (read name, flag without the pairing bits)
+    "P": ("rA", 0), "M": ("rA", 129), "S": ("rA", 2048), "X": ("rA", 256),
+    "Q": ("rB", 16), "D": ("rD", 1024), "U": ("u", 4),
+}
+
+
+def _overlaps(span, region):
+    s, e = span
+    lo, hi = region
+    return e > lo and (hi is None or s < hi)
+
+
+class Loop(SubCheck):
+    name = "loop"
+    encoded = ["whatshap.cli.haplotag.run_haplotag", "ignore_read", "attempt_add_phase_information", "prepare_haplotag_information", "normalize_user_regions", "compute_shared_samples",
+               "compute_variant_file_samples_to_use", "open_output_alignment_file", "open_haplotag_writer", "contigs_with_alignments", "load_chromosome_variants", "whatshap.utils.Region.parse"]
+    sources = ["whatshap/cli/haplotag.py", "whatshap/utils.py", "whatshap/vcf.py"]
+    assumptions = Decide.assumptions + ["one contig, one sample with a read group, records in coordinate order followed by the unplaced unmapped records (a sorted, indexed BAM)"]
+    stubs = Decide.stubs + ["vf/models/haplotag_model.py BamIn/BamOut (pysam.AlignmentFile: fetch by region overlap, fetch('*'), write), VcfIn (VcfReader.fetch_regions), TextOut (xopen); md5_of is replaced by a constant. "
+                            "The replay runs the real module's run_haplotag on real pysam.AlignedSegment records and compiled whatshap.core objects under the same file stand-ins; real BAM/VCF file I/O is outside"]
+    required_cover = ["supplementary tagged like its primary", "supplementary left untagged", "secondary untagged", "placed unmapped untagged", "stale tags removed from an untagged record",
+                      "tagged record", "regions given", "unmapped tail copied", "mates share the tag", "duplicate-flagged record tagged"]
+    max_decisions = 20000
+
+    def shapes(self, tier):
+        out = []
+        n = 3 if tier == "quick" else 4
+        others = "MSXQDU"
+        regs = [None, ["chr1:1-125", "chr1:126-400"]] if tier == "quick" else [None, ["chr1:1-125"], ["chr1:1-125", "chr1:126-400"], ["chr1:120-400", "chr1:1-130"]]
+        for ppos in range(n):
+            for rest in itertools.product(others, repeat=n - 1):
+                roles = list(rest[:ppos]) + ["P"] + list(rest[ppos:])
+                for r in regs:
+                    out.append(dict(roles="".join(roles), regions=r))
+        return out
+
+    def bounds(self, tier):
+        sh = self.shapes(tier)
+        return ("%d scenarios: %d placed records (one primary of read rA at every index, the others out of second mate / supplementary / secondary of rA, primary of read rB, duplicate-flagged primary, placed unmapped) "
+                "followed by one unplaced unmapped record; regions %s; symbolic: --tag-supplementary, stale HP/PS/PC on all records or none, observed alleles and qualities (0..3) of rA (2 variants) and rB (1 variant)"
+                % (len(sh), len(sh[0]["roles"]), sorted(set(str(s["regions"]) for s in sh))))
+
+    setup = Decide.setup
+    sym_impl = Decide.sym_impl
+    real_impl = Decide.real_impl
+
+    def harness(self, e, shape, impl):
+        hm = self.hm
+        mod = impl.haplotag
+        roles, regions = shape["roles"], shape["regions"]
+        tag_supp = bool(e.bit("tag_supplementary"))
+        stale = bool(e.bit("stale"))
+        positions = [120, 130]
+        phases = [[0, 1], [1, 0]]
+        vt = _table(impl, positions, ["het", "het"], [0, 0], phases, 2)
+        pos_info = {positions[i]: (BLOCK_IDS[0], phases[i]) for i in range(2)}
+        rvars = {"rA": [(120, e.bit("aA0"), e.int("qA0", 0, 3)), (130, e.bit("aA1"), e.int("qA1", 0, 3))]}
+        if "Q" in roles:
+            rvars["rB"] = [(120, e.bit("aB0"), e.int("qB0", 0, 3))]
+        if "D" in roles:
+            rvars["rD"] = [(130, 0, 5)]
+        reads = [dict(name=nm, start=100, vars=v) for nm, v in rvars.items()]
+        # records: placed ones 10 apart, 20 long (the first ends before the region boundary at 125, the others span it), then the tail
+        recs, spans = [], {}
+        for i, role in enumerate(roles):
+            nm, flag = ROLES[role]
+            if role == "P" and "M" in roles:
+                flag = 65
+            tags = dict(XX="keep%d" % i)
+            if stale:
+                tags.update(STALE)
+            a = impl.make_aln(nm, flag, 100 + 10 * i, 20, tags)
+            recs.append(a)
+            spans[id(a)] = (100 + 10 * i, 120 + 10 * i) if not flag & 4 else (100 + 10 * i, 101 + 10 * i)
+        tags = dict(XX="tail")
+        if stale:
+            tags.update(STALE)
+        tail = impl.make_aln("t", 4, -1, 20, tags)
+        recs.append(tail)
+        spans[id(tail)] = None
+        before = [hm.snap(a) for a in recs]
+        header = {"HD": {"VN": "1.6", "SO": "coordinate"}, "SQ": [{"SN": CHROM, "LN": 100000}], "RG": [{"ID": "g", "SM": SAMPLE}]}
+        bam_in = hm.BamIn(recs, header, lambda a: spans[id(a)])
+        bam_out, text_out = hm.BamOut(), hm.TextOut()
+
+        class _Pysam:
+            class AlignmentHeader:
+                from_dict = staticmethod(lambda d: d)
+
+            @staticmethod
+            def AlignmentFile(path, *a, **kw):
+                return bam_out if ("header" in kw or str(kw.get("mode", "r")).startswith("w")) else bam_in
+
+        mod.pysam = _Pysam
+        mod.VcfReader = lambda *a, **k: hm.VcfIn([SAMPLE], vt, mod.VcfInvalidChromosome)
+        mod.PhasedInputReader = lambda *a, **k: hm.Reader(impl.core, {SAMPLE: reads})
+        mod.md5_of = lambda path: "0" * 32
+        mod.xopen = lambda path, mode="wt": text_out
+        with contextlib.redirect_stdout(io.StringIO()):
+            mod.run_haplotag(variant_file="in.vcf.gz", alignment_file="in.bam", output="out.bam", reference=False, regions=regions,
+                             ignore_linked_read=True, haplotag_list="list.tsv", tag_supplementary=tag_supp)
+        written = bam_out.written
+        e.out("written", written)
+        e.out("list", text_out.lines)
+        ctx = lambda: dict(roles=roles, regions=regions, tag_supplementary=tag_supp, stale_tags=stale, input=[b[:3] for b in before], written=e.value(written),
+                           reads={k: [(p, a, e.value(q)) for p, a, q in v] for k, v in rvars.items()})
+        if regions is not None:
+            e.cover("regions given")
+        key = lambda rec: (rec[0], rec[1], rec[2])
+        by_key = {key(b): b for b in before}
+        strip = lambda tags: [(k, v) for k, v in tags if k not in ("HP", "PS", "PC")]
+        sc = {nm: _scores(v, pos_info, 2) for nm, v in rvars.items()}
+        tail_key = key(before[-1])
+        # 1. every written record is an input record, identical except HP/PS/PC, and carries the right tags
+        for w in written:
+            e.check(key(w) in by_key, "output contains a record that is not in the input", ctx)
+            b = by_key[key(w)]
+            e.check(strip(w[3]) == strip(b[3]), "a tag other than HP/PS/PC was changed", ctx)
+            if key(w) == tail_key:
+                continue
+            t = dict(w[3])
+            flag = w[1]
+            taggable = not (flag & 4) and not (flag & 256) and (not (flag & 2048) or tag_supp)
+            e.check(("HP" in t) == ("PS" in t), "HP and PS tags not set together", ctx)
+            if not taggable:
+                e.check("HP" not in t and "PS" not in t and "PC" not in t,
+                        "%s record carries HP/PS/PC in the output" % ("unmapped" if flag & 4 else "secondary" if flag & 256 else "supplementary (without --tag-supplementary)"), ctx)
+                e.cover("placed unmapped untagged" if flag & 4 else "secondary untagged" if flag & 256 else "supplementary left untagged")
+                if stale:
+                    e.cover("stale tags removed from an untagged record")
+                continue
+            got = (t["HP"] - 1, t["PS"]) if "HP" in t else None
+            _judge(e, sc[w[0]], got, ctx, "record %s flag %d" % (w[0], flag))
+            if got is None:
+                e.check("PC" not in t, "untagged record keeps a stale PC tag", ctx)
+                if stale:
+                    e.cover("stale tags removed from an untagged record")
+            else:
+                e.cover("tagged record")
+                if flag & 2048:
+                    e.cover("supplementary tagged like its primary")
+                if flag & 1024:
+                    e.cover("duplicate-flagged record tagged")
+                if flag & 128:
+                    e.cover("mates share the tag")
+        # records of one read name that are tagged at all carry the same tag
+        for nm in rvars:
+            tg = set((dict(w[3])["HP"], dict(w[3])["PS"]) for w in written if w[0] == nm and "HP" in dict(w[3]))
+            e.check(len(tg) <= 1, "records of one read carry different haplotype tags", ctx)
+        # 2. conservation: exactly once, in input order
+        if regions is None:
+            expect = [key(b) for b in before]
+        else:
+            rr = []
+            for spec in regions:
+                lo, hi = spec.split(":")[1].split("-")
+                rr.append((int(lo) - 1, int(hi)))
+            expect = [key(b) for b, a in zip(before, recs) if spans[id(a)] is not None and any(_overlaps(spans[id(a)], r) for r in rr)]
+        got_keys = [key(w) for w in written]
+        dup = sorted(set(k for k in got_keys if got_keys.count(k) > 1))
+        e.check(not dup, "an alignment is written more than once", lambda: dict(ctx(), duplicated=dup, regions_overlapping_it=[r for r in (regions or [])]))
+        missing = [k for k in expect if k not in got_keys]
+        e.check(not missing, "an input alignment is missing from the output", lambda: dict(ctx(), missing=missing))
+        e.check(got_keys == expect, "output order differs from input order (or records outside the requested regions were written)", ctx)
+        # 3. the unplaced unmapped tail
+        if regions is None:
+            e.cover("unmapped tail copied")
+            for w in written:
+                if key(w) == tail_key:
+                    t = dict(w[3])
+                    e.check("HP" not in t and "PS" not in t and "PC" not in t, "unplaced unmapped record keeps stale HP/PS/PC in the output", ctx)
+        # 4. haplotag list: one line per primary record of the main loop, agreeing with the tags
+        lines = [l.split("\t") for l in text_out.lines]
+        e.check(lines and lines[0] == ["#readname", "haplotype", "phaseset", "chromosome"], "haplotag list header missing", ctx)
+        prim = [w for w in written if key(w) != tail_key and not (w[1] & 256) and not (w[1] & 2048)]
+        e.check(len(lines) - 1 == len(prim), "haplotag list does not have one line per written primary record", ctx)
+        for l, w in zip(lines[1:], prim):
+            t = dict(w[3])
+            want = [w[0], "H%d" % t["HP"] if "HP" in t else "none", str(t["PS"]) if "PS" in t else "none", CHROM]
+            e.check(l == want, "haplotag list line disagrees with the tags written to the BAM", lambda: dict(ctx(), line=l, expected=want))
+
+    def classify(self, shape, v):
+        info = v.get("info") or {}
+        msg = v["msg"]
+        if msg.startswith("an alignment is written more than once"):
+            n = len(shape["regions"] or [])
+            return "loop:written more than once:regions=%d" % n
+        return "loop:%s" % msg
+
+
+SUBCHECKS = {c.name: c for c in [Decide(), Linked(), Loop()]}
 
 if __name__ == "__main__":
     import sys
